@@ -1063,3 +1063,12 @@ add("C20", "updated-manifests-listed-without-none-test", CTXF,
 add("C20", "benign-updated-manifests-listed-with-none-test", CTXF,
     [("    def add_description(self, codemod: BaseCodemod):\n", "    def updated_manifests(self):\n        return [store.file for store in self._dependency_update_by_codemod.values() if store is not None]\n\n    def add_description(self, codemod: BaseCodemod):\n")],
     "silent")
+SONR = "core_codemods/sonar/results.py"
+add("C09", "sonar-rule-objects-interned", SONR,
+    [("                rule=Rule(\n                    id=rule_id,\n                    name=name,\n                    url=sonar_url_from_id(rule_id),\n                ),", "                rule=_RULES.setdefault((rule_id, name), Rule(id=rule_id, name=name, url=sonar_url_from_id(rule_id))),"),
+     ("class SonarLocation(Location):", "_RULES: dict = {}\n\n\nclass SonarLocation(Location):")],
+    "fire", "R-FINDING-OWNS-RULE", "SonarResult.from_result")
+add("C09", "benign-sonar-rule-bound-to-local-first", SONR,
+    [("        return cls(\n            finding_id=finding_id,\n            rule_id=rule_id,\n            locations=locations,\n            codeflows=all_flows,\n            finding=Finding(\n                id=rule_id,\n                rule=Rule(\n                    id=rule_id,\n                    name=name,\n                    url=sonar_url_from_id(rule_id),\n                ),\n            ),",
+      "        rule = Rule(id=rule_id, name=name, url=sonar_url_from_id(rule_id))\n        return cls(\n            finding_id=finding_id,\n            rule_id=rule_id,\n            locations=locations,\n            codeflows=all_flows,\n            finding=Finding(id=rule_id, rule=rule),")],
+    "silent")
